@@ -1,7 +1,7 @@
 #!/usr/bin/env python3
 """Evaluate a behaviour-preserving refactoring produced by an independent sub-agent.
 
-usage: tools/try_refactor.py <PROP> <N> [--src DIR] [--keep] [--tag r|e]
+usage: tools/try_refactor.py <PROP> <N> [--src DIR] [--keep] [--tag r|e|x|y]
 
 1. in a scratch worktree: the agent's check test passes without the refactoring; the patch
    applies; the baseline suite passes with it; the check test passes with it
@@ -100,7 +100,7 @@ def main():
         shutil.copy(diff, os.path.join(dst, "patch.diff"))
         if os.path.exists(test):
             shutil.copy(test, os.path.join(dst, os.path.basename(test)))
-        json.dump({"id": tid, "about_property": prop, "source": "independent sub-agent asked for a behaviour-preserving refactoring" if tag == "r" else "independent sub-agent asked for three substantial behaviour-preserving refactorings of one region of the package (module-level campaign)" if tag == "x" else "independent sub-agent asked for a realistic property-preserving evolution (feature / hardening / logging / performance change)", "suite_with": result["suite_with"], "check_with": result.get("check_with"), "check_without": result.get("check_without")}, open(os.path.join(dst, "meta.json"), "w"), indent=1)
+        json.dump({"id": tid, "about_property": prop, "source": "independent sub-agent asked for a behaviour-preserving refactoring" if tag == "r" else "independent sub-agent asked for three substantial behaviour-preserving refactorings of one region of the package (module-level campaign)" if tag in ("x", "y") else "independent sub-agent asked for a realistic property-preserving evolution (feature / hardening / logging / performance change)", "suite_with": result["suite_with"], "check_with": result.get("check_with"), "check_without": result.get("check_without")}, open(os.path.join(dst, "meta.json"), "w"), indent=1)
     return 0
 
 
